@@ -129,6 +129,7 @@ def single_files(tier):
         t.file("R/d/ü.txt", 3)
         t.file("R/d/e/x&y.txt", 4)
         t.file("R/d/e/w.txt", 5)
+        t.file("R/d/a.txt", 6)  # with a child history at d: the same history-relative path as R/a.txt
         t.dir("R/z")
         child = sym.flag("child_history_at_d")
         if child:
@@ -138,7 +139,7 @@ def single_files(tier):
             r = b.run("create", root="R", h=["sha1"])
             b.require(r.exit == 0, "setup-create", str(r))
         sel = sym.choose("selection", [["R/a.txt"], ["R/d/ü.txt"], ["R/d/e"], ["R/a.txt", "R/d/e/x&y.txt"], ["R/b c.txt", "R/d"],
-                                       ["R/z"]])
+                                       ["R/z"], ["R/a.txt", "R/d/a.txt"], ["R/d", "R/d/e/w.txt"]])
         fmts = sym.choose("fmts", FSETS["quick"])
         names_before = {r: b.manifest_names(r) for r in cm.history_roots(b, "R")}
         spelled = sym.choose("sf_paths_spelled", ["absolute", "relative-with-dotdot"])
